@@ -92,6 +92,7 @@ def table_worker(mname, which=("C02", "C03", "C04")):
     cats = {c: set(ns.get(c, [])) for c in ("hasconst", "hasname", "haslocal", "hasfree", "hascompare")}
     refcats = {c: set((ref or {}).get(c, [])) for c in ("hasconst", "hasname", "haslocal", "hasfree", "hascompare")}
     refjrel, refjabs = set((ref or {}).get("hasjrel", [])), set((ref or {}).get("hasjabs", []))
+    ref_names = {num: nme for nme, num in (ref or {}).get("opmap", {}).items() if num < 256}
     lp = localsplus_expected(MARK)
     finder = ns.get("findlabels")
     if not isinstance(finder, FuncRef):
@@ -130,6 +131,10 @@ def table_worker(mname, which=("C02", "C03", "C04")):
         ob("C02", "R2", DEC, "%s:offset" % nm, repr(fl.get("offset")) == repr(cur), show(cur), show(fl.get("offset")),
            msg="Instruction.offset is not the offset the opcode byte was read from")
         ob("C02", "R2", DEC, "%s:opcode" % nm, fl.get("opcode") == K and fl.get("opname") == opname[K], [K, opname[K]], [show(fl.get("opcode")), show(fl.get("opname"))])
+        if ref is not None and K in ref_names:
+            # the name reported for this opcode number is CPython's spelling (dis says SLICE+0, not SLICE_0)
+            ob("C02", "R2", DEC, "%s:opname-spelling" % nm, fl.get("opname") == ref_names[K], ref_names[K], show(fl.get("opname")),
+               msg="opcode %d of %d.%d is %r in CPython's dis; the instruction reports %s" % (K, v[0], v[1], ref_names[K], show(fl.get("opname"))))
         # inst_size = width + count*width(EXTENDED_ARG)
         isz = fl.get("inst_size")
         extc = None
